@@ -206,9 +206,12 @@ Proof. exact Compose.C03E.batch_drain_refines_exchange. Qed.
 Print Assumptions C05_contract_C03_drain.
 
 (* ---- C14: the job table of Job.v, operation by operation -------------------------------------------
-   JR pl js s: the session js of Job.v satisfies its invariant, its table (job number -> handle) IS
-   s_jobs of s (the handle is the ghost serial), the Jobs it finished by a result are exactly s_done
-   of s, the number of Jobs created is s_serial.  pl: the (ghost) payload of the n-th Job.
+   JR pl js s: the session js of Job.v satisfies its invariant, nobody holds Session.lock (held = None:
+   the state between two operations), its table (job number -> handle) IS s_jobs of s (the handle is
+   the ghost serial), the Jobs it finished by a result are exactly s_done of s, the number of Jobs
+   created is s_serial.  pl: the (ghost) payload of the n-th Job.  apply_op runs ONE operation alone
+   through all its atomic steps (the write-locked sections of handle and Cancel are several writes
+   each): the statements are about the sequential projection of those programs.
    Task: Job.v and Exchange.v refuse together and accept together. *)
 Definition C05_stmt_C14_task : Prop :=
   forall pl run c js (s : sess) id draws full r js',
@@ -225,8 +228,8 @@ Print Assumptions C05_contract_C14_task.
 (* a result packet (normal, error, duplicate, unknown, numbered below 2) is Session.handle of
    Exchange.v, which is also its re-delivery step Dup; a packet that is no result is no step *)
 Definition C05_stmt_C14_handle : Prop :=
-  forall pl js (s : sess) wf id err tag x r js',
-  Compose.C14R.JR pl js s -> Job.apply_op (Job.OHandle wf id err tag) js = Ok (r, js') ->
+  forall pl js (s : sess) wf id err tag bytes x r js',
+  Compose.C14R.JR pl js s -> Job.apply_op (Job.OHandle wf id err tag bytes) js = Ok (r, js') ->
   Compose.C14R.JR pl js' (if wf then handle s (Pkt id x tag) else s) /\
   (r = Job.RBool true <-> wf = true /\ 2 <= id /\ tracked id s = true).
 Theorem C05_contract_C14_handle : C05_stmt_C14_handle.
@@ -386,8 +389,8 @@ Print Assumptions C05_history_of_job_operations.
    has finished (7, serial 0) with 1100. *)
 Definition cx_pl (n : nat) : Z := 100 * Z.of_nat n + 100.
 Definition cx_ops : list Job.op :=
-  [ Job.OTask 0 [7] false; Job.OTask 0 [7; 9] false; Job.OHasJob 9; Job.OHandle true 7 false 1100;
-    Job.OHandle true 7 true 55; Job.OHandle false 9 false 1; Job.OCancel 0%nat; Job.OTask 9 [] false ].
+  [ Job.OTask 0 [7] false; Job.OTask 0 [7; 9] false; Job.OHasJob 9; Job.OHandle true 7 false 1100 [1; 2];
+    Job.OHandle true 7 true 55 []; Job.OHandle false 9 false 1 []; Job.OCancel 0%nat; Job.OTask 9 [] false ].
 
 Example C05_compose_nonvacuous_jobs :
   Compose.C14R.job_adm cx_pl ex_run 1 cx_ops Job.s0 init_sess /\
